@@ -62,7 +62,7 @@ func runC06(p *Prog, r *Report) {
 	r.MinInstances["C06.R2b"] = 2
 	r.MinInstances["C06.R2c"] = 1
 	r.MinInstances["C06.R2d"] = 2
-	r.MinInstances["C06.R3"] = 5
+	r.MinInstances["C06.R3"] = 3
 	r.MinInstances["C06.R4"] = 3
 	r.MinInstances["C06.R5"] = 3
 	r.MinInstances["C06.R6"] = 3
@@ -561,8 +561,24 @@ func (c *c06ctx) ruleR3() {
 				return
 			}
 			ev := ret.Results[len(ret.Results)-1]
-			if !isErrorType(ev.Type()) || !constructedError(ev) {
+			if !isErrorType(ev.Type()) {
 				return
+			}
+			if !constructedError(ev) {
+				// the verdict of a validation helper that changes nothing itself, passed on
+				ec := errCall(ev)
+				if ec == nil || !isModuleFn(ec.Call.StaticCallee()) || len(p.TransEffects(ec.Call.StaticCallee(), nil, nil).W) > 0 {
+					return
+				}
+				constructs := false
+				Instrs(ec.Call.StaticCallee(), func(x ssa.Instruction) {
+					if rt, ok := x.(*ssa.Return); ok && len(rt.Results) > 0 && constructedError(rt.Results[len(rt.Results)-1]) {
+						constructs = true
+					}
+				})
+				if !constructs {
+					return
+				}
 			}
 			key := fmt.Sprintf("rejection in %s", FuncName(fn))
 			bad := ""
@@ -673,43 +689,7 @@ func (c *c06ctx) ruleR5() {
 		if fn.Signature.Recv() != nil && typeName(fn.Signature.Recv().Type()) == c.pub.Obj().Name() {
 			continue
 		}
-		loops := RangeLoops(fn)
-		// universal guards: range loops over processors whose body returns a non-nil error when a predicate holds for the element
-		guarded := map[string]*RangeLoop{}
-		for _, l := range loops {
-			if !c.overProcessors(l) {
-				continue
-			}
-			Instrs(fn, func(in ssa.Instruction) {
-				call, ok := in.(*ssa.Call)
-				if !ok || !l.Contains(in.Block()) || call.Call.StaticCallee() == nil {
-					return
-				}
-				h := c.hasPred[call.Call.StaticCallee()]
-				if h == "" || !l.IsElem(call.Call.Args[0]) {
-					return
-				}
-				// the true outcome must lead to an error return inside the loop
-				for _, ref := range *call.Referrers() {
-					iff, ok := ref.(*ssa.If)
-					if !ok {
-						continue
-					}
-					hits := reachFromBlock(iff.Block().Succs[0], func(x ssa.Instruction) bool { return x.Block() == l.Header }, func(x ssa.Instruction) bool {
-						ret, ok := x.(*ssa.Return)
-						if !ok || len(ret.Results) == 0 {
-							return false
-						}
-						cst, isC := ret.Results[len(ret.Results)-1].(*ssa.Const)
-						return !(isC && cst.Value == nil)
-					})
-					cont := reachFromBlock(iff.Block().Succs[0], func(x ssa.Instruction) bool { return isReturn(x) }, func(x ssa.Instruction) bool { return x.Block() == l.Header })
-					if len(hits) > 0 && len(cont) == 0 {
-						guarded[h] = l
-					}
-				}
-			})
-		}
+		guarded := c.guardLoops(fn)
 		Instrs(fn, func(in ssa.Instruction) {
 			cc := CallOf(in)
 			if cc == nil || cc.StaticCallee() == nil || c.installers[cc.StaticCallee()] == "" {
@@ -721,7 +701,9 @@ func (c *c06ctx) ruleR5() {
 			for _, hh := range c.handles {
 				g := guarded[hh]
 				if g == nil || !(g.Done == in.Block() || g.Done.Dominates(in.Block())) {
-					missing = append(missing, hh)
+					if !c.guardedByHelper(fn, hh, in.Block()) {
+						missing = append(missing, hh)
+					}
 				}
 			}
 			r.Check(len(missing) == 0, "C06.R5", "install "+h+" in "+FuncName(fn), p.InstrPos(in),
@@ -729,6 +711,93 @@ func (c *c06ctx) ruleR5() {
 				"writers are installed without first checking every processor for an existing "+strings.Join(missing, "/")+" writer (writer sets differ per channel, e.g. OFF only where projectors exist): a START while active can be accepted, orphaning open files and overwriting the reported state")
 		})
 	}
+}
+
+// guardLoops: the range loops over all processors in fn whose body rejects the request (returns
+// a non-nil error) when the has-writer predicate of a handle holds for the element.
+func (c *c06ctx) guardLoops(fn *ssa.Function) map[string]*RangeLoop {
+	guarded := map[string]*RangeLoop{}
+	for _, l := range RangeLoops(fn) {
+		if !c.overProcessors(l) {
+			continue
+		}
+		Instrs(fn, func(in ssa.Instruction) {
+			call, ok := in.(*ssa.Call)
+			if !ok || !l.Contains(in.Block()) || call.Call.StaticCallee() == nil {
+				return
+			}
+			h := c.hasPred[call.Call.StaticCallee()]
+			if h == "" || !l.IsElem(call.Call.Args[0]) {
+				return
+			}
+			// the true outcome must lead to an error return inside the loop
+			for _, ref := range *call.Referrers() {
+				iff, ok := ref.(*ssa.If)
+				if !ok {
+					continue
+				}
+				hits := reachFromBlock(iff.Block().Succs[0], func(x ssa.Instruction) bool { return x.Block() == l.Header }, func(x ssa.Instruction) bool {
+					ret, ok := x.(*ssa.Return)
+					if !ok || len(ret.Results) == 0 {
+						return false
+					}
+					cst, isC := ret.Results[len(ret.Results)-1].(*ssa.Const)
+					return !(isC && cst.Value == nil)
+				})
+				cont := reachFromBlock(iff.Block().Succs[0], func(x ssa.Instruction) bool { return isReturn(x) }, func(x ssa.Instruction) bool { return x.Block() == l.Header })
+				if len(hits) > 0 && len(cont) == 0 {
+					guarded[h] = l
+				}
+			}
+		})
+	}
+	return guarded
+}
+
+// guardedByHelper: block b of fn is reached only after a validation helper (a module function
+// whose every success return follows the completed guard loop of handle h) returned a nil error.
+func (c *c06ctx) guardedByHelper(fn *ssa.Function, h string, b *ssa.BasicBlock) bool {
+	found := false
+	Instrs(fn, func(in ssa.Instruction) {
+		call, ok := in.(*ssa.Call)
+		if !ok || found || !isModuleFn(call.Call.StaticCallee()) {
+			return
+		}
+		callee := call.Call.StaticCallee()
+		res := callee.Signature.Results()
+		if res.Len() == 0 || !isErrorType(res.At(res.Len()-1).Type()) || !nilEdgeDominates(call, b) {
+			return
+		}
+		l := c.guardLoops(callee)[h]
+		if l == nil {
+			return
+		}
+		// the helper looks at the same processors: same receiver passed on
+		if len(call.Call.Args) == 0 || len(fn.Params) == 0 || call.Call.Args[0] != ssa.Value(fn.Params[0]) {
+			return
+		}
+		okAll, n := true, 0
+		Instrs(callee, func(x ssa.Instruction) {
+			ret, isRet := x.(*ssa.Return)
+			if !isRet || len(ret.Results) == 0 {
+				return
+			}
+			ev := returnedValue(ret, len(ret.Results)-1)
+			if cst, isC := ev.(*ssa.Const); isC && cst.Value == nil {
+				n++
+				if !(l.Done == ret.Block() || l.Done.Dominates(ret.Block())) {
+					okAll = false
+				}
+			} else if !definitelyNonNilError(ev) && !constructedError(ev) {
+				okAll = false
+			}
+		})
+		if okAll && n > 0 {
+			c.r.Fn(FuncName(callee))
+			found = true
+		}
+	})
+	return found
 }
 
 // ---- R6 ---------------------------------------------------------------------------------
